@@ -38,10 +38,37 @@ def matchErrorLit (s : List Char) : Option (List Char × List Char) :=
 /-- result of one regular expression: token and rest of the text -/
 abbrev Match := Option (Tok × List Char)
 
-/-- `Error._re` without sheet prefix: `^\s*(#NULL!|…)\s*` -/
+/-- `\$?X+` for a character class `X`: the rest after an optional `$` and a non-empty run of `X` -/
+def dollarRun (p : Char → Bool) (s : List Char) : Option (List Char) :=
+  let s1 := match s with
+    | '$' :: r => r
+    | r => r
+  if (s1.takeWhile p).isEmpty then none else some (s1.dropWhile p)
+
+/-- `\$?[A-Z]+\$?[0-9]+` (letters of either case) -/
+def deadCell (s : List Char) : Option (List Char) :=
+  (dollarRun Char.isAlpha s).bind (dollarRun Char.isDigit)
+
+/-- after `X`, `:X` for the same kind of end -/
+def colonThen (f : List Char → Option (List Char)) (s : List Char) : Option (List Char) :=
+  match s with
+  | ':' :: r => f r
+  | _ => none
+
+/-- what `Error._re` swallows after `#REF!`: the cell part of a reference to a deleted sheet —
+`(?>cell(?>:cell)?|col:col|row:row)?` with atomic groups: the first alternative that matches is kept -/
+def deadRef (s : List Char) : List Char :=
+  match deadCell s with
+  | some r => (colonThen deadCell r).getD r
+  | none =>
+    match (dollarRun Char.isAlpha s).bind (colonThen (dollarRun Char.isAlpha)) with
+    | some r => r
+    | none => ((dollarRun Char.isDigit s).bind (colonThen (dollarRun Char.isDigit))).getD s
+
+/-- `Error._re` without sheet prefix: `^\s*(#NULL!|…)(dead reference after #REF!)?\s*` -/
 def mError (s : List Char) : Match :=
   match matchErrorLit (skipWs s) with
-  | some (m, r) => some (.operand .err (String.ofList m), skipWs r)
+  | some (m, r) => some (.operand .err (String.ofList m), skipWs (if m.map Char.toUpper = "#REF!".toList then deadRef r else r))
   | none => none
 
 /-- body of a string literal after the opening quote: `(""|[^"])*"` -/
